@@ -1,7 +1,7 @@
 (* GENERATED on every run by harness/translate/pysrc.py from the Python sources of the tree
    under test — do not edit.  Each definition is the translation of one function's source text;
    Proofs/GenEq*.v prove it equal to the hand-written model for all inputs. *)
-From CG Require Import Model.Slice Model.Loop Model.Recur Model.Cache.
+From CG Require Import Model.Metrics Model.Slice Model.Loop Model.Recur Model.Cache.
 
 
 (* calgebra/interval.py: Interval.finite_start *)
@@ -723,29 +723,29 @@ Definition g_inter_fetch {TL : Type} (fuel : nat) (self_sources : list TL) (tl_i
       (RDone r2_)).
 
 (* calgebra/core.py: Timeline._coerce_bound *)
-Definition g_coerce_bound (bound_ : bound) : res (option Z) :=
+Definition g_coerce_bound (bound_ : Slice.bound) : res (option Z) :=
   match bound_ with
-  | BNone =>
+  | Slice.BNone =>
     (RDone None)
-  | BInt bound__z =>
+  | Slice.BInt bound__z =>
     (RDone (Some bound__z))
-  | BAware bound__t bound__zone =>
+  | Slice.BAware bound__t bound__zone =>
     (RDone (Some bound__t))
-  | BNaive =>
+  | Slice.BNaive =>
     (RRaise TypeError)
-  | BOther =>
+  | Slice.BOther =>
     (RRaise TypeError)
   end.
 
 (* calgebra/core.py: Timeline.__getitem__ *)
-Definition g_getitem (self_fetch : option Z -> option Z -> bool -> list ivl) (clipped_fetch : option Z -> option Z -> bool -> list ivl) (item_start : bound) (item_stop : bound) (item_step : stepv) : res (list ivl) :=
+Definition g_getitem (self_fetch : option Z -> option Z -> bool -> list ivl) (clipped_fetch : option Z -> option Z -> bool -> list ivl) (item_start : Slice.bound) (item_stop : Slice.bound) (item_step : Slice.stepv) : res (list ivl) :=
   res_bind (g_coerce_bound item_start) (fun r1_ =>
   let start := r1_ in
   res_bind (g_coerce_bound item_stop) (fun r2_ =>
   let end_bound := r2_ in
   let step_ := item_step in
   match step_ with
-  | SNone =>
+  | Slice.SNone =>
     let reverse := false in
     let end_ := end_bound in
     let '(start, end_) :=
@@ -758,7 +758,7 @@ Definition g_getitem (self_fetch : option Z -> option Z -> bool -> list ivl) (cl
       (RDone (self_fetch start end_ reverse))
     else
       (RDone (clipped_fetch start end_ reverse))
-  | SInt step__z =>
+  | Slice.SInt step__z =>
     if (negb (zmem step__z [1; (-1)])) then
       (RRaise ValueError)
     else
@@ -774,7 +774,7 @@ Definition g_getitem (self_fetch : option Z -> option Z -> bool -> list ivl) (cl
         (RDone (self_fetch start end_ reverse))
       else
         (RDone (clipped_fetch start end_ reverse))
-  | SOther =>
+  | Slice.SOther =>
     (RRaise ValueError)
   end)).
 
@@ -885,3 +885,199 @@ Definition g_cache_fetch {KEYS : Type} {KEY : Type} (fuel : nat) (self_key_field
         let out := out ++ result in
         (RDone (clock, self_sink, self_key_validated, self_cover, self_expiry_seq, self_expiry_heap, out)))
       (self_sink, self_key_validated, self_cover, self_expiry_seq, self_expiry_heap, clock) (gaps_of self_cover (ozd start) (ozd end_))).
+
+(* calgebra/core.py: Union.fetch *)
+Definition g_union_fetch {TL : Type} (self_sources : list TL) (tl_fetch : TL -> option Z -> option Z -> bool -> list ivl) (start : option Z) (end_ : option Z) (reverse : bool) : list ivl :=
+  let streams := (map (fun source => (tl_fetch source start end_ reverse)) self_sources) in
+  let merged :=
+    if reverse then
+      let merged := (merge_by lt_rev streams) in
+      merged
+    else
+      let merged := (merge_by lt_fwd streams) in
+      merged in
+  merged.
+
+(* calgebra/core.py: Difference.fetch *)
+Definition g_diff_fetch {TL : Type} (fuel : nat) (source_fetch : option Z -> option Z -> bool -> list ivl) (self_subtractors : list TL) (tl_fetch : TL -> option Z -> option Z -> bool -> list ivl) (start : option Z) (end_ : option Z) (reverse : bool) : res (list ivl) :=
+  if (negb (nonempty self_subtractors)) then
+    (RDone (source_fetch start end_ reverse))
+  else
+    if reverse then
+      let source_stream := (g_negate_stream (source_fetch start end_ true)) in
+      let sub_streams := (map (fun sub => (g_negate_stream (tl_fetch sub start end_ true))) self_subtractors) in
+      res_bind (g_diff_sweep fuel source_stream sub_streams) (fun r1_ =>
+      (RDone (g_negate_stream r1_)))
+    else
+      let source_stream := (source_fetch start end_ false) in
+      let sub_streams := (map (fun sub => (tl_fetch sub start end_ false)) self_subtractors) in
+      res_bind (g_diff_sweep fuel source_stream sub_streams) (fun r2_ =>
+      (RDone r2_)).
+
+(* calgebra/core.py: Difference.overlapping *)
+Definition g_diff_overlapping {TL : Type} (fuel : nat) (source_overlapping : Z -> list ivl) (self_subtractors : list TL) (tl_fetch : TL -> option Z -> option Z -> bool -> list ivl) (point : Z) : res (list ivl) :=
+  let out := @nil ivl in
+  if (negb (nonempty self_subtractors)) then
+    let out := out ++ (source_overlapping point) in
+    (RDone out)
+  else
+    run_for_r
+      (fun _ src_ivl =>
+        let out := @nil ivl in
+        let sub_streams := (map (fun sub => (tl_fetch sub (st src_ivl) (en src_ivl) false)) self_subtractors) in
+        res_bind (g_diff_sweep fuel [src_ivl] sub_streams) (fun r1_ =>
+        let '(out1_, _) :=
+          sub_for
+            (fun _ fragment =>
+              let out := @nil ivl in
+              if (((fstart fragment) <=? point) && (point <? (fend fragment))) then
+                let out := out ++ [fragment] in
+                (out, tt, true)
+              else
+                (out, tt, true))
+            tt r1_ in
+        let out := out ++ out1_ in
+        RDone (out, tt, Cont)))
+      (fun _ =>
+        let out := @nil ivl in
+        out)
+      tt (source_overlapping point).
+
+(* calgebra/core.py: Complement.overlapping *)
+Definition g_compl_overlapping (source_fetch : option Z -> option Z -> bool -> list ivl) (self_fetch : option Z -> option Z -> bool -> list ivl) (point : Z) : list ivl :=
+  if (existsb (fun ivl_ => (((fstart ivl_) <=? point) && (point <? (fend ivl_)))) (source_fetch (Some point) (Some (point + 1)) false)) then
+    (@nil ivl)
+  else
+    let right_ := None in
+    iter_for
+      (fun right_ ivl_ =>
+        if ((fstart ivl_) >? point) then
+          let right_ := (st ivl_) in
+          (SBrk right_)
+        else
+          (SCont right_))
+      (fun right_ =>
+        let left_ := None in
+        iter_for
+          (fun left_ gap_ =>
+            if (((fstart gap_) <=? point) && ((fend gap_) >? point)) then
+              let left_ := (st gap_) in
+              (SBrk left_)
+            else
+              (SCont left_))
+          (fun left_ =>
+            [(mkI left_ right_ Plain)])
+          left_ (self_fetch None (Some (point + 1)) true))
+      right_ (source_fetch (Some point) None false).
+
+(* calgebra/core.py: Timeline.overlapping *)
+Definition g_base_overlapping (self_fetch : option Z -> option Z -> bool -> list ivl) (point : Z) : list ivl :=
+  (filter (fun ivl_ => (((fstart ivl_) <=? point) && (point <? (fend ivl_)))) (self_fetch (Some point) (Some (point + 1)) false)).
+
+(* calgebra/recurrence.py: RecurringPattern._occurrence_to_interval *)
+Definition g_recur_occurrence_to_interval {DT : Type} {TD : Type} (self_start_seconds : Z) (self_duration_seconds : Z) (dt_replace_hms : DT -> Z -> Z -> Z -> DT) (dt_timestamp : DT -> Z) (dt_fromtimestamp : Z -> DT) (td_of_seconds : Z -> TD) (dt_add : DT -> TD -> DT) (interval_class : Z -> Z -> ivl) (occurrence : DT) : ivl :=
+  let start_hour_int := (self_start_seconds / 3600) in
+  let remaining := (self_start_seconds mod 3600) in
+  let start_minute := (remaining / 60) in
+  let start_second := (remaining mod 60) in
+  let window_start := (dt_replace_hms occurrence start_hour_int start_minute start_second) in
+  let window_start := (dt_fromtimestamp (dt_timestamp window_start)) in
+  let window_end := (dt_add window_start (td_of_seconds self_duration_seconds)) in
+  let base_interval := (interval_class (dt_timestamp window_start) (dt_timestamp window_end)) in
+  base_interval.
+
+(* calgebra/metrics.py: _period_windows_with_dt *)
+Definition g_period_windows_dt {DT : Type} {TD : Type} (fuel : nat) (p_fromtimestamp : Z -> DT) (p_ymd : Z -> Z -> Z -> DT) (p_ymdh : Z -> Z -> Z -> Z -> DT) (p_hours : Z -> TD) (p_days : Z -> TD) (p_weeks : Z -> TD) (p_add : DT -> TD -> DT) (p_sub : DT -> TD -> DT) (p_lt : DT -> DT -> bool) (p_timestamp : DT -> Z) (p_weekday : DT -> Z) (p_year : DT -> Z) (p_month : DT -> Z) (p_day : DT -> Z) (p_hour : DT -> Z) (start_ts : Z) (end_ts : Z) (period : Metrics.period) : res (list ((DT * Z * Z))) :=
+  if (start_ts >=? end_ts) then
+    (RDone (@nil (DT * Z * Z)))
+  else
+    let zone := tt in
+    let start_dt := (p_fromtimestamp start_ts) in
+    let end_dt := (p_fromtimestamp end_ts) in
+    match period with
+    | Metrics.PHour =>
+      let windows := (@nil (DT * Z * Z)) in
+      let current := (p_ymdh (p_year start_dt) (p_month start_dt) (p_day start_dt) (p_hour start_dt)) in
+      iter_while fuel
+        (fun '(windows, current) => (p_lt current end_dt))
+        (fun '(windows, current) =>
+          let next_hour := (p_add current (p_hours 1)) in
+          let win_start := (p_timestamp current) in
+          let win_end := (p_timestamp next_hour) in
+          let windows := (windows ++ [(current, win_start, win_end)]) in
+          let current := next_hour in
+          (SCont (windows, current)))
+        (fun '(windows, current) =>
+          (RDone windows))
+        (windows, current)
+    | Metrics.PDay =>
+      let windows := (@nil (DT * Z * Z)) in
+      let current := (p_ymd (p_year start_dt) (p_month start_dt) (p_day start_dt)) in
+      iter_while fuel
+        (fun '(windows, current) => (p_lt current end_dt))
+        (fun '(windows, current) =>
+          let next_day := (p_add current (p_days 1)) in
+          let win_start := (p_timestamp current) in
+          let win_end := (p_timestamp next_day) in
+          let windows := (windows ++ [(current, win_start, win_end)]) in
+          let current := next_day in
+          (SCont (windows, current)))
+        (fun '(windows, current) =>
+          (RDone windows))
+        (windows, current)
+    | Metrics.PWeek =>
+      let windows := (@nil (DT * Z * Z)) in
+      let days_since_monday := (p_weekday start_dt) in
+      let week_start := (p_sub (p_ymd (p_year start_dt) (p_month start_dt) (p_day start_dt)) (p_days days_since_monday)) in
+      let current := week_start in
+      iter_while fuel
+        (fun '(windows, current) => (p_lt current end_dt))
+        (fun '(windows, current) =>
+          let next_week := (p_add current (p_weeks 1)) in
+          let win_start := (p_timestamp current) in
+          let win_end := (p_timestamp next_week) in
+          let windows := (windows ++ [(current, win_start, win_end)]) in
+          let current := next_week in
+          (SCont (windows, current)))
+        (fun '(windows, current) =>
+          (RDone windows))
+        (windows, current)
+    | Metrics.PMonth =>
+      let windows := (@nil (DT * Z * Z)) in
+      let current := (p_ymd (p_year start_dt) (p_month start_dt) 1) in
+      iter_while fuel
+        (fun '(windows, current) => (p_lt current end_dt))
+        (fun '(windows, current) =>
+          let next_month :=
+            if ((p_month current) =? 12) then
+              let next_month := (p_ymd ((p_year current) + 1) 1 1) in
+              next_month
+            else
+              let next_month := (p_ymd (p_year current) ((p_month current) + 1) 1) in
+              next_month in
+          let win_start := (p_timestamp current) in
+          let win_end := (p_timestamp next_month) in
+          let windows := (windows ++ [(current, win_start, win_end)]) in
+          let current := next_month in
+          (SCont (windows, current)))
+        (fun '(windows, current) =>
+          (RDone windows))
+        (windows, current)
+    | Metrics.PYear =>
+      let windows := (@nil (DT * Z * Z)) in
+      let current := (p_ymd (p_year start_dt) 1 1) in
+      iter_while fuel
+        (fun '(windows, current) => (p_lt current end_dt))
+        (fun '(windows, current) =>
+          let next_year := (p_ymd ((p_year current) + 1) 1 1) in
+          let win_start := (p_timestamp current) in
+          let win_end := (p_timestamp next_year) in
+          let windows := (windows ++ [(current, win_start, win_end)]) in
+          let current := next_year in
+          (SCont (windows, current)))
+        (fun '(windows, current) =>
+          (RDone windows))
+        (windows, current)
+    | Metrics.PFull =>
+      (RDone [(start_dt, start_ts, end_ts)])
+    end.
